@@ -10,9 +10,11 @@
    Parameters:
      v6    GD_PVERS_GE( *p, 6): quoting and escapes are recognised
      want  tok_want
-     fix   false = the code as it is; true = the code with
-           proposed_fixes/C08-2.diff (a numeric escape still pending when the
-           string ends is completed instead of being reported as unterminated)
+     fx    true  = the code as it is (since /repo commit e8e73fb "a numeric
+                   escape sequence may be ended by the end of the string");
+           false = the code before that commit (a numeric escape still pending
+                   when the string ends was reported as unterminated); kept
+                   only for the regression lemmas of TokAgree.v
 
    A C string is a list of non-zero bytes; bytes are N. *)
 From Coq Require Import List NArith Bool Arith Lia.
@@ -187,7 +189,7 @@ Fixpoint run (v6 : bool) (want : nat) (st : tstate) (s : list N)
       end
   end.
 
-(* proposed fix C08-2: when the loop reaches the end of the string with a
+(* after the loop (commit e8e73fb): when the end of the string is reached with a
    numeric escape pending, complete it as any non-digit would have *)
 Definition flush (st : tstate) : tstate * option terr :=
   if esc st then
